@@ -238,6 +238,18 @@ def metal_pair(draw):
                            "kids": [{"t": "text", "s": "second fill"}], "void": False})
         main.append({"t": "el", "tag": "div", "attrs": [["id", "user2"]], "tal": {}, "metal": {"use-macro": "lib/macros/box"},
                      "kids": fills2, "void": False})
+    if draw(st.integers(0, 2)) == 0:
+        # the macro used (or the library included as structure) INSIDE the body of a loop whose element has attributes of its
+        # own and a computed one: every iteration starts from the element's own attributes again
+        inner = draw(st.sampled_from([
+            {"t": "el", "tag": "div", "attrs": [["id", "user-in-loop"]], "tal": {}, "metal": {"use-macro": "lib/macros/box"}, "kids": [], "void": False},
+            {"t": "el", "tag": "div", "attrs": [["id", "incl-in-loop"]], "tal": {"content": "structure lib"}, "metal": {}, "kids": [], "void": False}]))
+        tal = {"repeat": "mrow %s" % draw(st.sampled_from(["lst2", "lst", "d1/k_l"]))}
+        if draw(st.booleans()):
+            tal["attributes"] = "title mrow/k_opt | default; data-n repeat/mrow/number"
+        row = {"t": "el", "tag": "li", "attrs": [["class", "row"], ["title", "own title"]], "tal": tal, "metal": {},
+               "kids": [{"t": "text", "s": "row "}, inner, {"t": "text", "s": " end"}], "void": False}
+        main.insert(draw(st.integers(0, len(main))), row)
     return lib, main
 
 
